@@ -436,3 +436,29 @@ func H15Procs() {
 	vndReach("h15:procs")
 	vndAssert(got == ref, "output-independent-of-gomaxprocs")
 }
+
+// H15Rows: a table with several rows. The values differ widely in magnitude, so that a
+// geometric mean accumulated in another order differs in its last digits; with every small
+// map iterated in an arbitrary order the CSV output (which prints the summary row at full
+// precision) is byte-identical.
+func H15Rows() {
+	n := vndParam("rows")
+	rs := make([]h14Res, n)
+	order := make([]int, n)
+	for i := range rs {
+		rs[i] = h14Res{a: 'x', nm: 'P', s: byte('1' + i), file: 'f', u1: 0} // both measurements in sec/op: one table
+		order[i] = i
+	}
+	ref := h14CSV(h14Run(h14Make(0, 0), rs, order))
+	vndMapOrderNondet(true)
+	got := h14CSV(h14Run(h14Make(0, 0), rs, order))
+	vndMapOrderNondet(false)
+	vndReach("h15:rows")
+	if vndNative() {
+		for k := 0; k < 64 && got == ref; k++ {
+			got = h14CSV(h14Run(h14Make(0, 0), rs, order))
+		}
+	}
+	vndAssert(got == ref, "csv-output-independent-of-map-iteration-order")
+	vndObserveStr("csv", ref)
+}
